@@ -35,7 +35,7 @@ pub fn pool_strategy(max_n: usize) -> BoxedStrategy<PoolCase> {
 /// far more simultaneous connections than any fixed limit a pool might have: each needs its own
 /// worker for as long as it lives
 pub fn pool_many_strategy(thorough: bool) -> BoxedStrategy<PoolCase> {
-    let ns = if thorough { vec![64usize, 257, 300, 520, 1100] } else { vec![257usize, 300] };
+    let ns = if thorough { vec![64usize, 257, 300, 320] } else { vec![257usize, 300] };
     // (the spawning thread yields after every spawn, as an accept loop that takes connections one by
     // one does: every worker has started - and counts - before the next task arrives)
     (proptest::sample::select(ns), prop_oneof![Just(0usize), Just(3usize)], proptest::collection::vec(1u8..3, 1..3))
